@@ -12,12 +12,19 @@ Driver for C08 (factory creation). One output line per input line; `case …` re
 * `mkwl flex=<0|1> start=<ns> end=<ns> ok=<0|1> poold=<n> supd=<n>`  (last three = environment witnesses) → `ok wl=<a>` | `err`
 * `create f=<a> sender=<a> funds=<d:a,…|-> sg721=<code> creator=<a|x> n=<n|-> per=<n> start=<ns> end=<ns|->
      price=<d:a> pay=<a|-|x> wl=<a|-|x> trade=<ns|-> roys=<atomics|-> royp=<a|x> desc=<len> img=<0|1>
-     link=<0|1|-> uri=<0|1> nft=<0|1>`                                                 → `ok m= c= mi= ci= cfg= col= <bank>` | `err <bank>`
+     link=<0|1|-> uri=<0|1> nft=<0|1>`                       → `ok m= c= mi= ci= cfg= col= <bank> ## cfgx= colx= <bankx>` | `err <bank> ## <bankx>`
 * `setlimit m=<a> sender=<a> funds=<…> limit=<n>`                                      → `ok|err per=<n|->`
+* `probe m=<contract> sender=<a> variant=<name> [funds=…]`  (any other message of the contract's schema: changes nothing the
+     model tracks)                                                                     → `per=<n|-> next=<n>`
+* `migrate m=<contract> sender=<a>`  (wasm-level migration: allowed for the registry's admin only)          → `admin=<0|1>`
 
-`<params>` = `code= allowed= frozen= fee= minp= off= maxtok= maxper= airp=`;
-`<bank>` = `bal=<sender fee-denom>,<sender native>,<factory fee-denom>,<factory native>,<pool native>,<dao fee-denom>,<dao native>
-sup=<native>,<fee-denom> next=<number of contracts>`.
+Projection (`primary ## drift`, only `primary` decides agreement):
+`<params>` = `code= allowed=<SORTED SET> frozen= fee= minp= off= maxtok= maxper= airp= ## allowedraw=<stored list>`;
+`cfg=` = minter `factory,admin,sg721,sg721 code,num_tokens,per_address_limit`; `cfgx=` = `start,end,price,whitelist,payment address`;
+`col=` = collection `owner (= minter),creator`; `colx=` = `start_trading_time,royalty share,royalty address`;
+`<bank>` = `bal=<sender fee-denom>,<sender native>,<factory fee-denom>,<factory native>,<dao fee-denom>,<dao native>
+net=<native supply − fair-burn pool> supfd=<fee-denom supply, - if native> next=<number of contracts>`; `<bankx>` = `pool= sup=`
+(`net` falls by exactly the fee whatever the burn/pool split is; the split itself belongs to C06).
 -/
 open LP LP.Proto LP.FC
 
@@ -68,33 +75,41 @@ def fkindOf (n : Nat) : FKind :=
   match n with
   | 0 => .vending | 1 => .openEdition | 2 => .tokenMerge | _ => .base
 
+def sortedSet (l : List Nat) : List Nat := (l.eraseDups).mergeSort
+
 def paramsS (p : Params) : String :=
-  s!"code={p.codeId} allowed={renderNats p.allowed} frozen={b2s p.frozen} fee={coinS p.fee} minp={coinS p.minPrice} off={p.offset} maxtok={p.maxTokens} maxper={p.maxPerAddr} airp={coinS p.airdropPrice}"
+  s!"code={p.codeId} allowed={renderNats (sortedSet p.allowed)} frozen={b2s p.frozen} fee={coinS p.fee} minp={coinS p.minPrice} off={p.offset} maxtok={p.maxTokens} maxper={p.maxPerAddr} airp={coinS p.airdropPrice} ## allowedraw={renderNats p.allowed}"
 
 def coinsOf (l : List (Nat × Nat)) : List Coin := l.map fun (d, a) => ⟨d, a⟩
 
-def bankS (w : World) (f sender : Addr) : String :=
+/-- (primary, drift) -/
+def bankS (w : World) (f sender : Addr) : String × String :=
   let fd := match w.factory? f with | some x => x.p.fee.denom | none => 0
-  s!"bal={w.bal sender fd},{w.bal sender 0},{w.bal f fd},{w.bal f 0},{w.bal FAIRBURN_POOL 0},{w.bal LAUNCHPAD_DAO fd},{w.bal LAUNCHPAD_DAO 0} sup={w.supply 0},{w.supply fd} next={w.next}"
+  let supfd := if fd = 0 then "-" else toString (w.supply fd)
+  (s!"bal={w.bal sender fd},{w.bal sender 0},{w.bal f fd},{w.bal f 0},{w.bal LAUNCHPAD_DAO fd},{w.bal LAUNCHPAD_DAO 0} net={w.supply 0 - w.bal FAIRBURN_POOL 0} supfd={supfd} next={w.next}",
+   s!"pool={w.bal FAIRBURN_POOL 0} sup={w.supply 0}")
 
 def infoS (w : World) (a : Addr) : String :=
   match w.contract? a with
   | none => "-"
   | some c => s!"{c.code}:{c.instantiator}:{optS c.admin}"
 
-def minterS (w : World) (a : Addr) : String :=
+/-- (primary, drift) -/
+def minterS (w : World) (a : Addr) : String × String :=
   match w.minter? a with
-  | none => "-"
+  | none => ("-", "-")
   | some m =>
     let price := match m.price with | some c => coinS c | none => "-"
-    s!"{m.factory},{optS m.admin},{m.sg721},{m.sg721Code},{optS m.numTokens},{optS m.perAddr},{optS m.start},{optS m.endTime},{price},{optS m.wl},{optS m.payAddr}"
+    (s!"{m.factory},{optS m.admin},{m.sg721},{m.sg721Code},{optS m.numTokens},{optS m.perAddr}",
+     s!"{optS m.start},{optS m.endTime},{price},{optS m.wl},{optS m.payAddr}")
 
-def collS (w : World) (a : Addr) : String :=
+/-- (primary, drift) -/
+def collS (w : World) (a : Addr) : String × String :=
   match w.collection? a with
-  | none => "-"
+  | none => ("-", "-")
   | some c =>
     let (rs, rp) := match c.royalty with | some (s, p) => (toString s, toString p) | none => ("-", "-")
-    s!"{c.owner},{c.creator},{optS c.trade},{rs},{rp}"
+    (s!"{c.owner},{c.creator}", s!"{optS c.trade},{rs},{rp}")
 
 def parseCreate (ws : List String) : Option (Addr × CreateMsg) := do
   let f ← natKv ws "f"; let sender ← natKv ws "sender"; let funds ← pairListKv ws "funds"
@@ -171,8 +186,13 @@ def c08Step (w : World) (line : String) : World × String :=
       | .ok w' =>
         let ma := minterAddr w
         let ca := collectionAddr w
-        (w', s!"ok m={ma} c={ca} mi={infoS w' ma} ci={infoS w' ca} cfg={minterS w' ma} col={collS w' ca} {bankS w' f m.sender}")
-      | .error _ => (w, s!"err {bankS w f m.sender}")
+        let (bp, bd) := bankS w' f m.sender
+        let (mp, md) := minterS w' ma
+        let (cp, cd) := collS w' ca
+        (w', s!"ok m={ma} c={ca} mi={infoS w' ma} ci={infoS w' ca} cfg={mp} col={cp} {bp} ## cfgx={md} colx={cd} {bd}")
+      | .error _ =>
+        let (bp, bd) := bankS w f m.sender
+        (w, s!"err {bp} ## {bd}")
     | none => bad
   | some "setlimit" =>
     match natKv ws "m", natKv ws "sender", pairListKv ws "funds", natKv ws "limit" with
@@ -183,6 +203,17 @@ def c08Step (w : World) (line : String) : World × String :=
       let per := match w'.minter? ma with | some m => optS m.perAddr | none => "-"
       (w', (match r with | .ok _ => "ok" | .error _ => "err") ++ s!" per={per}")
     | _, _, _, _ => bad
+  | some "probe" =>
+    -- any other message of a minter's / factory's schema: nothing the model tracks changes
+    match natKv ws "m" with
+    | some ma =>
+      let per := match w.minter? ma with | some m => optS m.perAddr | none => "-"
+      (w, s!"per={per} next={w.next}")
+    | none => bad
+  | some "migrate" =>
+    match natKv ws "m", natKv ws "sender" with
+    | some ma, some s => (w, s!"admin={b2s (mayMigrate w ma s)}")
+    | _, _ => bad
   | _ => bad
 
 def main : IO Unit := runDriver ({} : World) c08Step
